@@ -97,6 +97,10 @@ def check_term(term, res=None, second=False):
         node = T.build(term)
     except Exception as e:
         return ('-', 'build', repr(e)[:200])
+    if not irtools.simplifies(node):
+        if res is not None:
+            res.count('skipped_simplifier_fails_see_C01')
+        return None
     old = T.MARGIN
     T.MARGIN = .05
     try:
@@ -124,6 +128,10 @@ def check_term(term, res=None, second=False):
             if kind in 'bi':
                 if not evaluable.iszero(d):
                     return (name, 'nonzero-int', 'derivative of an integer/boolean term is not identically zero: {}'.format(d))
+                continue
+            if not irtools.simplifies(d):
+                if res is not None:
+                    res.count('skipped_simplifier_fails_see_C01')
                 continue
             try:
                 fd = irtools.compile_(d)
